@@ -1,4 +1,4 @@
-//@@ unit c04_scan properties=C04 bounded=scan_sidecar_backwards.returns_newest_records_in_reverse_order_none_skipped_torn_tail_is_error,replay.sidecar_stream_and_tail_equal_the_truth_stream_or_are_refused
+//@@ unit c04_scan properties=C04,C01 bounded=scan_sidecar_backwards.returns_newest_records_in_reverse_order_none_skipped_torn_tail_is_error,replay.sidecar_stream_and_tail_equal_the_truth_stream_or_are_refused
 #![allow(unused_imports, dead_code, unused_variables, unused_mut)]
 use vstd::prelude::*;
 
